@@ -28,8 +28,8 @@ MANIFEST = {
     'level_note': 'Trusts CPython arithmetic; float totals are compared with a 1 us tolerance (2 us for normalized(), which '
                   'documents rounding to "roughly" the nearest microsecond).',
 }
-PLAN = {'quick': {'shards': 2, 'timeout': 300, 'budget': 45},
-        'thorough': {'shards': 16, 'timeout': 1500, 'budget': 420}}
+PLAN = {'quick': {'shards': 2, 'timeout': 1800, 'budget': 900},
+        'thorough': {'shards': 16, 'timeout': 7200, 'budget': 2400}}
 N_CASES = {'quick': 6000, 'thorough': 60000}
 
 REL = ('years', 'months', 'days', 'hours', 'minutes', 'seconds', 'microseconds')
